@@ -8,6 +8,8 @@ Tie: (a) severity mixes through the real output() under 24 output-option sets vs
 `audit.end`; (c) policy runs pass/fail x text/JSON.
 Oracle: count [fail]/[warn] tags in the captured report and compare with the exit status; faulted
 handshakes must exit 1 without any (kex)/(key)/(enc)/(mac) line; policy verdict vs. exit status.
+Extension props/ext/C02_policyaudit.py (Props/C02PolicyAudit.lean over Model/PolicyAudit.lean): the whole policy-audit path — evaluate_policy's text and
+JSON forms, the error text, labels, -l levels, the outdated notice, broken handshakes, -M, -L, the built-in table — through the real main().
 """
 import itertools
 import json
@@ -23,6 +25,7 @@ import fakenet as fn
 ID = 'C02'
 MODULE = 'SshAudit.Props.C02'
 NAMESPACE = 'SshAudit.C02'
+EXTENSIONS = ['props.ext.C02_policyaudit']
 THEOREMS = ['foldStatus_append', 'foldStatus_three', 'foldStatus_two', 'foldStatus_zero', 'status_iff', 'status_range', 'status_perm',
             'statusOfLines_eq', 'report_status', 'incomplete_never_clean', 'complete_status', 'policy_status']
 TECHNIQUE = 'Lean 4 theorems (closed form of the status fold by induction, iff-characterisation, permutation invariance; case analysis of the audit() decision logic) + end-to-end correspondence through output() and main() over scripted peers'
